@@ -105,6 +105,15 @@ def obligations(tier, seed):
                       body=SHDR + decl_ + '\nVF_STATIC_FACT(vf_streq(au::unit_label(VD{}), "%s"));\nint main() {}\n' % text,
                       contract='static fact: a unit declared as `%s` has the label "%s" (never the label of the differently sized unit it is built from)' % (decl_.split(chr(10))[0], text),
                       functions_under_contract=('au::unit_label / UnitLabel (compile-time)',)))
+    # library unit that inherits a label (same mechanism as unlabeled_derived_scaled), and two units of different size with one label: recorded known findings
+    for (nm, incs, fact, what) in (
+            ('rankines-label', '#include "au/units/fahrenheit.hh"', '!vf_streq(au::unit_label(au::Rankines{}), "K")', 'au::Rankines (5/9 K) does not print the label of au::Kelvins'),
+            ('kilo-of-power-vs-power-of-kilo', '#include "au/units/meters.hh"', '!vf_streq(au::unit_label<au::Kilo<au::UnitPowerT<au::Meters, 2>>>(), au::unit_label<au::UnitPowerT<au::Kilo<au::Meters>, 2>>())',
+             'Kilo<Meters^2> (10^3 m^2) and (Kilo<Meters>)^2 (10^6 m^2) do not print the same label')):
+        obs.append(Ob(id='C18.static.%s' % nm, prop='C18', group='C18.static', prelude='', wrappers=[], inputs=[], kind='S',
+                      body='#include "au/au.hh"\n' + incs + '\n#define VF_STATIC_FACT(c) static_assert(c, "VF_STATIC_FACT")\n'
+                           'constexpr bool vf_streq(const char *a, const char *b) { return (*a == *b) && (*a == 0 || vf_streq(a + 1, b + 1)); }\nVF_STATIC_FACT((%s));\nint main() {}\n' % fact,
+                      contract='static fact: ' + what, functions_under_contract=('au::unit_label / UnitLabel (compile-time)',)))
     # ---- the documented label grammar on a wider list of unit expressions (supporting static facts; one TU per group so that a failure names its group)
     GH = ('#include "au/au.hh"\n#include "au/units/meters.hh"\n#include "au/units/seconds.hh"\n#include "au/units/inches.hh"\n#include "au/units/feet.hh"\n#include "au/units/bytes.hh"\n'
           '#include "au/units/bits.hh"\n#include "au/units/celsius.hh"\n#include "au/units/kelvins.hh"\nusing namespace au;\n#define VF_STATIC_FACT(c) static_assert(c, "VF_STATIC_FACT")\n'
@@ -114,7 +123,10 @@ def obligations(tier, seed):
                            ('Ym', 'Yotta<Meters>'), ('qm', 'Quecto<Meters>'), ('km / s', 'decltype(Kilo<Meters>{} / Seconds{})'), ('ms', 'Milli<Seconds>'), ('GB', 'Giga<Bytes>')],
               'powers-products': [('s^(-1)', 'UnitInverseT<Seconds>'), ('s^(-2)', 'UnitPowerT<Seconds, -2>'), ('m * s', 'UnitProductT<Meters, Seconds>'), ('m / s^2', 'UnitQuotientT<Meters, UnitPowerT<Seconds, 2>>'),
                                   ('m^2 / s', 'UnitQuotientT<UnitProductT<Meters, Meters>, Seconds>'), ('m^2 * s^2', 'UnitPowerT<UnitProductT<Meters, Seconds>, 2>'), ('', 'UnitProductT<>'),
-                                  ('m / (s * K)', 'UnitQuotientT<Meters, UnitProductT<Seconds, Kelvins>>'), ('m^(1/2)', 'UnitPowerT<Meters, 1, 2>')],
+                                  ('m / (s * K)', 'UnitQuotientT<Meters, UnitProductT<Seconds, Kelvins>>'), ('m^(1/2)', 'UnitPowerT<Meters, 1, 2>'),
+                                  # exponents appear as their exact decimal digits, beyond 32 bits as well
+                                  ('m^4294967301', 'Pow<Meters, 4294967301>'), ('m^(1/4294967299)', 'RatioPow<Meters, 1, 4294967299>'), ('m^(-3000000000)', 'Pow<Meters, -3000000000>'),
+                                  ('m^2147483648', 'UnitPowerT<Meters, 2147483648>'), ('m^(-9223372036854775807)', 'Pow<Meters, -9223372036854775807>')],
               'scaled-common': [('EQUIV{[(1 / 5000) m], [(1 / 127) in]}', 'CommonUnitT<Inches, Meters>'), ('in', 'CommonUnitT<Feet, Inches>'),
                                 ('EQUIV{[(1 / 100) degC], [(1 / 100) K]}', 'CommonPointUnitT<Celsius, Kelvins>'), ('[(UNLABELED SCALE FACTOR) m]', 'decltype(Meters{} * mag<3>() * Magnitude<Pi>{})'),
                                 ('[(25 / 3) m]', 'decltype(Meters{} / mag<3>() * pow<2>(mag<5>()))'), ('[12 in]', 'decltype(Inches{} * mag<12>())'), ('ft', 'Feet'),
